@@ -1,4 +1,5 @@
 import PytaskProofs.Lemmas.EngineScratch
+import PytaskProofs.Lemmas.StateStructural
 /-! A concrete project, body function and two builds, used by the non-vacuity examples of C02 / C03. -/
 namespace Pytask
 namespace Engine
@@ -102,6 +103,70 @@ theorem shScratch : Scratch exF shP' shR2.w.fs 20 6 := by
         exact Scratch.input 10 5 (by intro t ht; simp only [shP', List.mem_singleton] at ht; subst ht; decide) (by decide)
       | succ k => simp [shT'] at hk)
   exact h
+
+/-! ### a history with a project edit -/
+
+/-- task 1 rewired: it additionally consumes the input 10 (its module content changes 2 → 3, see `exW3`) -/
+def exT1' : TaskSpec := { id := 1, src := 91, deps := [20, 10], prods := [21, 22], after := [0] }
+def exP' : Project := ⟨[exT0, exT1']⟩
+/-- what the module contents of the example say: module of task 1 with content 2 declares `exT1`, with any other content `exT1'` -/
+def exDeclOf : Nat → Nat → Option Decl := fun c id =>
+  if id = 0 then some (declOfTask exT0) else if c = 2 then some (declOfTask exT1) else some (declOfTask exT1')
+def exR3' : Result :=
+  { exit := 0, reports := [(0, .skipUnchanged), (1, .success)], log := [1],
+    w := { fs := [(22, 1116), (21, 1016), (91, 3), (20, 7), (10, 6), (90, 1)],
+           db := [((2, 45), 1116), ((2, 43), 1016), ((2, 2), 3), ((2, 21), 6), ((2, 41), 7), ((0, 41), 7), ((0, 0), 1), ((0, 21), 6)] },
+    complete := true }
+
+theorem mem_exP' {t : TaskSpec} (h : t ∈ exP'.tasks) : t = exT0 ∨ t = exT1' := by
+  simpa [exP'] using h
+
+theorem exP'_eq : (PEdit.change 1 exT1').apply exP = exP' := by rfl
+
+theorem exWF' : WF exP' := by
+  refine ⟨?_, ?_, ?_⟩
+  · intro t ht u hu h
+    rcases mem_exP' ht with rfl | rfl <;> rcases mem_exP' hu with rfl | rfl <;>
+      first | rfl | (simp [exT0, exT1'] at h)
+  · intro t ht
+    rcases mem_exP' ht with rfl | rfl <;> decide
+  · intro t ht u hu
+    rcases mem_exP' ht with rfl | rfl <;> rcases mem_exP' hu with rfl | rfl <;> decide
+
+theorem exBT' : BodiesTotal exP' := by
+  intro t ht k
+  rcases mem_exP' ht with rfl | rfl <;> simp [exT0, exT1']
+
+theorem exBuild3' : build exF exP' {} exW3 [0, 1] = .ok exR3' := by rfl
+
+theorem exReads (fs : FS) (h : lookup fs 91 = some 2) : DeclChangeTouchesSrc exDeclOf exP fs := by
+  intro t ht c hc
+  rcases mem_exP ht with rfl | rfl
+  · rfl
+  · have : c = 2 := by
+      have h' : lookup fs 91 = some c := hc
+      rw [h] at h'; exact (Option.some.inj h').symm
+    subst this; rfl
+
+theorem exReads' : DeclChangeTouchesSrc exDeclOf exP' exW3.fs := by
+  intro t ht c hc
+  rcases mem_exP' ht with rfl | rfl
+  · rfl
+  · have h3 : lookup exW3.fs 91 = some 3 := by decide
+    have : c = 3 := by
+      have h' : lookup exW3.fs 91 = some c := hc
+      rw [h3] at h'; exact (Option.some.inj h').symm
+    subst this; rfl
+
+/-- first build, edit of the input, second build, then task 1 is rewired *and* its module edited, third build -/
+theorem exHistoryP : HistoryP exF exDeclOf exP' exW3 := by
+  have h1 : HistoryP exF exDeclOf exP exR1.w :=
+    HistoryP.build {} [0, 1] exR1 (HistoryP.init exP exW.fs) exWF exBT (exReads _ (by decide)) exBuild1
+  have h2 : HistoryP exF exDeclOf exP exR2.w :=
+    HistoryP.build {} [0, 1] exR2 (HistoryP.fileEdit exW2.fs h1) exWF exBT (exReads _ (by decide)) exBuild2
+  have h3 := HistoryP.projEdit (PEdit.change 1 exT1') (HistoryP.fileEdit exW3.fs h2)
+  rw [exP'_eq] at h3
+  exact h3
 
 end Engine
 end Pytask
